@@ -1,5 +1,94 @@
-(* C02 — placeholder until Proofs/KnowsProofs.v lands *)
-From CC Require Import Base.Prelude Base.Scalar Base.Ty Base.Shape Graph.Value Graph.IR Model.Knows.
-Theorem C02_ksend_leaf : forall s r v, ksend s r (KLeaf v) = KLeaf (if pmem s v then padd r v else premove r v).
+(* C02 — each party can run the protocol from its own data and the messages it receives.
+
+   kcheck (Model/Knows.v) is a static "who validly knows what" analysis of an inlined graph.
+   The theorem: if kcheck accepts, then for EVERY deterministic op semantics whose structural
+   operations route values (every graph, every inputs, every junk, every three random tapes),
+   every listed output party ends the three-party execution with the value of the global
+   (single-evaluator) run; for an output kept shared, slot j is held by parties j and j-1
+   exactly as in the global run.  On every check run kcheck is evaluated, inside Coq, on the
+   real output of compile_context for generated programs and configurations: by this theorem
+   that is a proof, for that compiled protocol, over all inputs, junk and tapes.
+   Together with C01 (global run = source semantics) this is the property.
+   Not a theorem yet (stated as C02_compile_accepted_full): that the compiler's output is always
+   accepted — the quantifier over programs is closed per exported instance. *)
+From CC Require Import Base.Prelude Base.Scalar Base.Ty Base.Shape Graph.Value Graph.IR Graph.Eval
+  Model.Knows Proofs.KnowsProofs Proofs.KnowsInst.
+
+Theorem C02_kcheck_sound :
+  forall (sem : op -> list ty -> ty -> list value -> value -> result value),
+  (forall o dts t vs r v, route_of dts o = RTuple -> sem o dts t vs r = Ok v -> v = VTup vs) ->
+  (forall o dts t d rest r v, route_of dts o = RNop -> sem o dts t (d :: rest) r = Ok v -> v = d) ->
+  (forall o dts t j d rest r v, route_of dts o = RGet j -> sem o dts t (d :: rest) r = Ok v ->
+                              exists l, d = VTup l /\ znth l j = Ok v) ->
+  (forall o dts t vs r r', is_randdep_op o = false -> sem o dts t vs r = sem o dts t vs r') ->
+  forall (c : config) (tapes : party -> Z -> value) nodes output gin lin genv envs,
+  kcheck c nodes output = true ->
+  inputs_agree (cfg_inputs c) gin lin ->
+  grun sem (rho c tapes) gin nodes = Some genv ->
+  lrun sem tapes lin nodes = Some envs ->
+  (cfg_outputs c <> [] ->
+   forall p gv, In p (cfg_outputs c) -> is_party p -> znth genv output = Ok gv ->
+                znth (tget envs p) output = Ok (embed gv)) /\
+  (cfg_outputs c = [] ->
+   forall j p gs lv, (j = 0 \/ j = 1 \/ j = 2) -> (p = j \/ p = (j + 2) mod 3) ->
+                znth genv output = Ok (VTup gs) -> znth (tget envs p) output = Ok lv ->
+                forall g, znth gs j = Ok g ->
+                match lv with PTup ls => znth ls j = Ok (embed g) | _ => False end).
+Proof. exact kcheck_sound. Qed.
+
+(* the same for the evaluator model of Graph/Eval.v, with ANY oracle standing for the operations
+   it does not mirror (PRF, Sort, Join, cuckoo hashing, ...) *)
+Theorem C02_kcheck_sound_evaluator :
+  forall oracle c tapes nodes output gin lin genv envs,
+  kcheck c nodes output = true ->
+  inputs_agree (cfg_inputs c) gin lin ->
+  grun (sem_of oracle) (rho c tapes) gin nodes = Some genv ->
+  lrun (sem_of oracle) tapes lin nodes = Some envs ->
+  (cfg_outputs c <> [] ->
+   forall p gv, In p (cfg_outputs c) -> is_party p -> znth genv output = Ok gv ->
+                znth (tget envs p) output = Ok (embed gv)) /\
+  (cfg_outputs c = [] ->
+   forall j p gs lv, (j = 0 \/ j = 1 \/ j = 2) -> (p = j \/ p = (j + 2) mod 3) ->
+                znth genv output = Ok (VTup gs) -> znth (tget envs p) output = Ok lv ->
+                forall g, znth gs j = Ok g ->
+                match lv with PTup ls => znth ls j = Ok (embed g) | _ => False end).
+Proof. exact kcheck_sound_eval. Qed.
+
+(* the Send rule: the receiver learns exactly what the sender validly knew *)
+Theorem C02_send_transfers : forall s r k lv gv, agree s k lv gv -> agree r (ksend s r k) lv gv.
+Proof. exact agree_ksend_recv. Qed.
+
+(* what is not yet a theorem: every output of the compiler is accepted *)
+Definition C02_compile_accepted_full : Prop :=
+  forall (compile : list node -> config -> list node * Z) src c,
+    let '(nodes, out) := compile src c in kcheck c nodes out = true.
+
+(* Non-vacuity.  Party 0 owns x; x + x is computed by party 0, sent to party 1, output to party 1:
+   accepted.  Without the Send marker: rejected.  Output to party 2 instead: rejected. *)
+Definition ex_nodes (send : bool) : list node :=
+  [mkNode (OInput (TScalar U8)) [] [] [] (TScalar U8);
+   mkNode OAdd [0; 0] [] [] (TScalar U8);
+   mkNode ONOP [1] [] (if send then [ASend 0 1] else []) (TScalar U8)].
+Example C02_example_accept : kcheck (mkCfg [StParty 0] [1] []) (ex_nodes true) 2 = true.
 Proof. reflexivity. Qed.
-Print Assumptions C02_ksend_leaf.
+Example C02_example_missing_send : kcheck (mkCfg [StParty 0] [1] []) (ex_nodes false) 2 = false.
+Proof. reflexivity. Qed.
+Example C02_example_wrong_receiver : kcheck (mkCfg [StParty 0] [2] []) (ex_nodes true) 2 = false.
+Proof. reflexivity. Qed.
+(* a 2-out-of-3 shared input passed through is an acceptable shared output; a tuple of three
+   values that only their makers know (3-out-of-3) is not *)
+Example C02_example_shared_ok :
+  kcheck (mkCfg [StShared] [] [])
+    [mkNode (OInput (TTuple [TScalar U8; TScalar U8; TScalar U8])) [] [] [] (TTuple [TScalar U8; TScalar U8; TScalar U8])] 0 = true.
+Proof. reflexivity. Qed.
+Example C02_example_three_of_three_rejected :
+  kcheck (mkCfg [] [] [(0, 0); (1, 1); (2, 2)])
+    [mkNode (ORandom (TScalar U8)) [] [] [] (TScalar U8);
+     mkNode (ORandom (TScalar U8)) [] [] [] (TScalar U8);
+     mkNode (ORandom (TScalar U8)) [] [] [] (TScalar U8);
+     mkNode OCreateTuple [0; 1; 2] [] [] (TTuple [TScalar U8; TScalar U8; TScalar U8])] 3 = false.
+Proof. reflexivity. Qed.
+
+Print Assumptions C02_kcheck_sound.
+Print Assumptions C02_kcheck_sound_evaluator.
+Print Assumptions C02_send_transfers.
